@@ -383,12 +383,12 @@ static unsigned int
 __bizda_get_count(dt_bizda_t that)
 {
 /* get N where N is the N-th occurrence of wday in the month of that year */
-	unsigned int bd = __get_bdays(that.y, that.m);
+	unsigned int md = __bizda_get_mday(that);
 
-	if (UNLIKELY(that.bd + DUWW_BDAYS_P_WEEK > bd)) {
-		return DUWW_BDAYS_P_WEEK;
-	}
-	return (that.bd - 1U) / DUWW_BDAYS_P_WEEK + 1U;
+	/* a weekday's N-th occurrence lies on days 7(N-1)+1 to 7N, counting
+	 * business days in fives only works for months that begin on a monday
+	 * and the last occurrence needn't be the 5th */
+	return (md - 1U) / GREG_DAYS_P_WEEK + 1U;
 }
 
 static unsigned int
